@@ -34,6 +34,18 @@ func verifC02Handover(strategyKind int) {
 	// invariant established by every adopting/creating apply (checked in C01 "permitted-adopts"): the controller's
 	// revision is the recorded revision
 	verifrt.Assume(verifrt.Implies(byMe, s.objRev == s.myRev))
+	// a recorded revision may also be a number no ObjectSet can ever reach (beyond int64): it is higher than the
+	// ObjectSet's own whatever that is, so an object the ObjectSet does not control already stays untouched
+	beyond := false
+	if s.revKind == 3 {
+		beyond = verifrt.Bool("recordedRevisionBeyondInt64")
+	}
+	if beyond {
+		verifrt.Assume(verifrt.Not(byMe))
+		ann := s.existing.GetAnnotations()
+		ann[corev1alpha1.ObjectSetRevisionAnnotation] = "9223372036854775808"
+		s.existing.SetAnnotations(ann)
+	}
 
 	w := &vWriter{}
 	// the object may last have been written by an older release (client-side apply): its field managers are migrated
@@ -69,6 +81,11 @@ func verifC02Handover(strategyKind int) {
 		}
 	}
 	// never touch an object that records a newer revision
+	if beyond {
+		verifrt.Assert(len(real) == 0, "C02/newer-revision-untouched")
+		verifrt.Reach("untouched")
+		return
+	}
 	verifrt.Assert(verifrt.Implies(s.objRev > s.myRev, len(real) == 0), "C02/newer-revision-untouched")
 	for _, x := range real {
 		if x.Verb != "patch" || x.PatchType != types.ApplyPatchType {
